@@ -9,12 +9,13 @@ all argument values. `cli lib cmd inv` is the interpreter of Model/Cli.lean run 
 sub-command; the programs and the argparse wiring are re-extracted from `/repo` on every run and
 proved equal to the model's (`tie_*`).
 
-Three clauses of the property are FALSE of the current code; for each the full statement is kept
+Two clauses of the property are FALSE of the current code (a third, the line terminator, was false
+until /repo 9670208 and is now proved at full strength: `line_terminator_full`, `one_newline_full`;
+the print-based programs are kept as `oldSetProg`/`oldRmProg` with their `cex_*`); for each the full statement is kept
 as a `def … : Prop`, its negation is proved on a witness (`cex_*`, replayed on the real command line
 by harness/props/c16.py), and the part that does hold is proved with an explicit decidable side
 condition (`*_partial`):
 
-* line terminator: `print(x)` always appends `\n` (`cex_line_terminator`, `cex_one_newline`);
 * verdict wording: when the library raises, `nima test` shows a traceback instead of `Fail`
   (`cex_test_verdict_traceback`; the exit status is still right: `test_exit_zero_iff`);
 * channel independence: `-f FILE` is opened with universal-newline translation, stdin is not, so
@@ -162,11 +163,11 @@ theorem test_verdict_partial (lib : Lib σ) (inv : Inv) (t : Text) (hraw : inv.r
 
 /-! ## 2. `nima set` / `nima rm`: what is emitted, exit status, silence on error -/
 
-/-- What holds today: the emitted bytes are the text of the library edit followed by one `\n`,
-    status 0. -/
-theorem edit_emits_text_newline (lib : Lib σ) (cmd : Cmd) (hcmd : cmd ≠ .test) (inv : Inv) (t text : Text)
+/-- The emitted bytes are the text of the library edit with a line terminator added only when
+    it lacks one, status 0. -/
+theorem edit_emits_ensureNewline (lib : Lib σ) (cmd : Cmd) (hcmd : cmd ≠ .test) (inv : Inv) (t text : Text)
     (hc : inv.content = .ok t) (he : libEdit lib cmd inv.npath inv.value t = .ok text) :
-    cli lib cmd inv = ⟨text ++ ['\n'], 0, none, false⟩ := by
+    cli lib cmd inv = ⟨ensureNewline text, 0, none, false⟩ := by
   rw [cli_edit_eq lib cmd hcmd]
   simp [editClosed, hc, he]
 
@@ -210,61 +211,42 @@ theorem edit_nonzero_silent (lib : Lib σ) (cmd : Cmd) (hcmd : cmd ≠ .test) (i
     | ok text => simp [he] at h
 
 /-- FULL statement of the line-terminator clause: "adding a line terminator only when that text
-    lacks one". -/
-def LineTerminatorFull : Prop :=
+    lacks one", for any command-line function `cliF` (the current one, or the one before the repair). -/
+def LineTerminatorFullOf (cliF : ∀ {σ : Type}, Lib σ → Cmd → Inv → Res) : Prop :=
   ∀ (σ : Type) (lib : Lib σ) (cmd : Cmd) (inv : Inv) (t text : Text), cmd ≠ .test →
     inv.content = .ok t → libEdit lib cmd inv.npath inv.value t = .ok text →
-    (cli lib cmd inv).stdout = ensureNewline text
+    (cliF lib cmd inv).stdout = ensureNewline text
 
-/-- a library whose edits return the source text unchanged -/
-def identityLib : Lib Text :=
-  { parse := fun t => .ok t, containsError := fun _ => false, rebuild := fun s => .ok s,
-    setValue := fun s _ _ => .ok s, removeValue := fun s _ => .ok s }
+def LineTerminatorFull : Prop := LineTerminatorFullOf @cli
 
-/-- Counterexample (known finding C16-print-newline): the edit returns `x\n`; `nima set` emits
-    `x\n\n`. -/
-theorem cex_line_terminator : ¬ LineTerminatorFull := by
-  intro h
-  have h2 := h Text identityLib .set { chan := .stdin, raw := .ok ['x', '\n'] } ['x', '\n'] ['x', '\n']
-    (by decide) rfl rfl
-  revert h2
-  decide
-
-/-- The clause holds exactly for edit texts that lack the terminator … -/
-theorem line_terminator_partial (lib : Lib σ) (cmd : Cmd) (hcmd : cmd ≠ .test) (inv : Inv) (t text : Text)
-    (hc : inv.content = .ok t) (he : libEdit lib cmd inv.npath inv.value t = .ok text)
-    (hn : text.getLast? ≠ some '\n') : (cli lib cmd inv).stdout = ensureNewline text := by
-  rw [edit_emits_text_newline lib cmd hcmd inv t text hc he, ensureNewline_of_not text hn]
-
-/-- … and fails for every edit text that has it (which is every edit of a file that ends in a
-    newline): one newline too many, on every invocation. -/
-theorem line_terminator_fails_exactly (lib : Lib σ) (cmd : Cmd) (hcmd : cmd ≠ .test) (inv : Inv) (t text : Text)
-    (hc : inv.content = .ok t) (he : libEdit lib cmd inv.npath inv.value t = .ok text)
-    (hn : text.getLast? = some '\n') :
-    (cli lib cmd inv).stdout = ensureNewline text ++ ['\n'] ∧ (cli lib cmd inv).stdout ≠ ensureNewline text := by
-  rw [edit_emits_text_newline lib cmd hcmd inv t text hc he, ensureNewline_of_endsWith text hn]
-  exact ⟨rfl, by simp⟩
+/-- The clause holds of the current code (since /repo 9670208), at full strength. -/
+theorem line_terminator_full : LineTerminatorFull := by
+  intro σ lib cmd inv t text hcmd hc he
+  rw [edit_emits_ensureNewline lib cmd hcmd inv t text hc he]
 
 /-- FULL statement of the consequence the property names: an edit text that ends in exactly one
     newline is emitted ending in exactly one newline. -/
-def OneNewlineFull : Prop :=
+def OneNewlineFullOf (cliF : ∀ {σ : Type}, Lib σ → Cmd → Inv → Res) : Prop :=
   ∀ (σ : Type) (lib : Lib σ) (cmd : Cmd) (inv : Inv) (t text : Text), cmd ≠ .test →
     inv.content = .ok t → libEdit lib cmd inv.npath inv.value t = .ok text →
-    endsInOneNewline text = true → endsInOneNewline (cli lib cmd inv).stdout = true
+    endsInOneNewline text = true → endsInOneNewline (cliF lib cmd inv).stdout = true
 
-theorem cex_one_newline : ¬ OneNewlineFull := by
-  intro h
-  have h2 := h Text identityLib .rm { chan := .stdin, raw := .ok ['x', '\n'] } ['x', '\n'] ['x', '\n']
-    (by decide) rfl rfl (by decide)
-  revert h2
-  decide
+def OneNewlineFull : Prop := OneNewlineFullOf @cli
 
-/-- In fact it fails on every such text, not only on the witness. -/
-theorem one_newline_never_preserved (lib : Lib σ) (cmd : Cmd) (hcmd : cmd ≠ .test) (inv : Inv) (t text : Text)
-    (hc : inv.content = .ok t) (he : libEdit lib cmd inv.npath inv.value t = .ok text)
-    (h1 : endsInOneNewline text = true) : endsInOneNewline (cli lib cmd inv).stdout = false := by
-  rw [edit_emits_text_newline lib cmd hcmd inv t text hc he]
-  exact endsInOneNewline_append text (endsInOneNewline_getLast text h1)
+theorem one_newline_full : OneNewlineFull := by
+  intro σ lib cmd inv t text hcmd hc he h1
+  rw [edit_emits_ensureNewline lib cmd hcmd inv t text hc he,
+    ensureNewline_of_endsWith text (endsInOneNewline_getLast text h1)]
+  exact h1
+
+/-- Emitting is idempotent at the file level: whatever the edit text, the emitted bytes end in a
+    newline, and an edit text that already does is emitted byte for byte. -/
+theorem edit_output_terminated (lib : Lib σ) (cmd : Cmd) (hcmd : cmd ≠ .test) (inv : Inv) (t text : Text)
+    (hc : inv.content = .ok t) (he : libEdit lib cmd inv.npath inv.value t = .ok text) :
+    (cli lib cmd inv).stdout.getLast? = some '\n' ∧
+      (text.getLast? = some '\n' → (cli lib cmd inv).stdout = text) := by
+  rw [edit_emits_ensureNewline lib cmd hcmd inv t text hc he]
+  exact ⟨ensureNewline_endsWith text, ensureNewline_of_endsWith text⟩
 
 /-- SPEC sanity: `ensureNewline` is what the property describes. -/
 theorem ensureNewline_spec (t : Text) :
@@ -277,25 +259,72 @@ theorem ensureNewline_spec (t : Text) :
   rw [ensureNewline_of_endsWith t (endsInOneNewline_getLast t h)]
   exact h
 
-/-- The proposed repair (write the text, add `\n` only if missing) satisfies the full clause,
-    keeps the exit status and the silence on error. -/
-theorem repaired_line_terminator (lib : Lib σ) (inv : Inv) (t text : Text) (hc : inv.content = .ok t) :
-    (libEdit lib .set inv.npath inv.value t = .ok text →
-      runProg lib repairedSetProg inv = ⟨ensureNewline text, 0, none, false⟩) ∧
-    (libEdit lib .rm inv.npath inv.value t = .ok text →
-      runProg lib repairedRmProg inv = ⟨ensureNewline text, 0, none, false⟩) := by
-  constructor
-  · intro he; rw [repaired_set_eq]; simp [repairedClosed, hc, he]
-  · intro he; rw [repaired_rm_eq]; simp [repairedClosed, hc, he]
+/-! ### The fixed defect C16-print-newline (code before /repo 9670208): `print(x)` always appends `\n`.
+Kept as documentation, and so that a regression is recognised: `oldSetProg`/`oldRmProg` are the
+print-based programs, `oldCli` runs them. -/
 
-theorem repaired_error_silent (lib : Lib σ) (inv : Inv)
-    (h : (runProg lib repairedSetProg inv).raised ≠ none) :
-    (runProg lib repairedSetProg inv).stdout = [] ∧ (runProg lib repairedSetProg inv).exit = 1 := by
-  constructor
-  · exact run_emitsLast_silent lib _ _ _ _ repairedSetProg (by decide) {} h
-  · cases hr : (runProg lib repairedSetProg inv).raised with
-    | none => exact absurd hr h
-    | some e => exact run_raised_exit lib _ _ _ _ repairedSetProg {} e hr
+/-- a library whose edits return the source text unchanged -/
+def identityLib : Lib Text :=
+  { parse := fun t => .ok t, containsError := fun _ => false, rebuild := fun s => .ok s,
+    setValue := fun s _ _ => .ok s, removeValue := fun s _ => .ok s }
+
+theorem old_edit_emits_text_newline (lib : Lib σ) (cmd : Cmd) (hcmd : cmd ≠ .test) (inv : Inv) (t text : Text)
+    (hc : inv.content = .ok t) (he : libEdit lib cmd inv.npath inv.value t = .ok text) :
+    oldCli lib cmd inv = ⟨text ++ ['\n'], 0, none, false⟩ := by
+  rw [oldCli_edit_eq lib cmd hcmd]
+  simp [oldEditClosed, hc, he]
+
+/-- Counterexample for the old code: the edit returns `x\n`; `nima set` emitted `x\n\n`. -/
+theorem cex_line_terminator : ¬ LineTerminatorFullOf @oldCli := by
+  intro h
+  have h2 := h Text identityLib .set { chan := .stdin, raw := .ok ['x', '\n'] } ['x', '\n'] ['x', '\n']
+    (by decide) rfl rfl
+  revert h2
+  decide
+
+theorem cex_one_newline : ¬ OneNewlineFullOf @oldCli := by
+  intro h
+  have h2 := h Text identityLib .rm { chan := .stdin, raw := .ok ['x', '\n'] } ['x', '\n'] ['x', '\n']
+    (by decide) rfl rfl (by decide)
+  revert h2
+  decide
+
+/-- The old code met the clause exactly for edit texts that lack the terminator … -/
+theorem old_line_terminator_partial (lib : Lib σ) (cmd : Cmd) (hcmd : cmd ≠ .test) (inv : Inv) (t text : Text)
+    (hc : inv.content = .ok t) (he : libEdit lib cmd inv.npath inv.value t = .ok text)
+    (hn : text.getLast? ≠ some '\n') : (oldCli lib cmd inv).stdout = ensureNewline text := by
+  rw [old_edit_emits_text_newline lib cmd hcmd inv t text hc he, ensureNewline_of_not text hn]
+
+/-- … and failed for every edit text that has it: one newline too many, on every invocation. -/
+theorem old_line_terminator_fails_exactly (lib : Lib σ) (cmd : Cmd) (hcmd : cmd ≠ .test) (inv : Inv) (t text : Text)
+    (hc : inv.content = .ok t) (he : libEdit lib cmd inv.npath inv.value t = .ok text)
+    (hn : text.getLast? = some '\n') :
+    (oldCli lib cmd inv).stdout = ensureNewline text ++ ['\n'] ∧ (oldCli lib cmd inv).stdout ≠ ensureNewline text := by
+  rw [old_edit_emits_text_newline lib cmd hcmd inv t text hc he, ensureNewline_of_endsWith text hn]
+  exact ⟨rfl, by simp⟩
+
+theorem old_one_newline_never_preserved (lib : Lib σ) (cmd : Cmd) (hcmd : cmd ≠ .test) (inv : Inv) (t text : Text)
+    (hc : inv.content = .ok t) (he : libEdit lib cmd inv.npath inv.value t = .ok text)
+    (h1 : endsInOneNewline text = true) : endsInOneNewline (oldCli lib cmd inv).stdout = false := by
+  rw [old_edit_emits_text_newline lib cmd hcmd inv t text hc he]
+  exact endsInOneNewline_append text (endsInOneNewline_getLast text h1)
+
+/-- the repair changed nothing but the terminator: same exit status, same silence on error -/
+theorem old_and_new_agree_elsewhere (lib : Lib σ) (cmd : Cmd) (inv : Inv) :
+    (oldCli lib cmd inv).exit = (cli lib cmd inv).exit ∧ (oldCli lib cmd inv).raised = (cli lib cmd inv).raised ∧
+      ((cli lib cmd inv).exit ≠ 0 → (oldCli lib cmd inv).stdout = (cli lib cmd inv).stdout) := by
+  cases cmd with
+  | test => exact ⟨rfl, rfl, fun _ => rfl⟩
+  | set =>
+    rw [oldCli_edit_eq lib .set (by decide), cli_edit_eq lib .set (by decide)]
+    unfold oldEditClosed editClosed
+    repeat' split
+    all_goals simp [tracebackRes]
+  | rm =>
+    rw [oldCli_edit_eq lib .rm (by decide), cli_edit_eq lib .rm (by decide)]
+    unfold oldEditClosed editClosed
+    repeat' split
+    all_goals simp [tracebackRes]
 
 /-! ## 3. Channel independence -/
 
@@ -315,7 +344,7 @@ def ChannelIndependenceFull : Prop :=
     cli lib cmd ⟨.stdin, raw, np, v⟩ = cli lib cmd ⟨.file, raw, np, v⟩
 
 /-- Counterexample (known finding C16-file-newline-translation): the text `x\r` is emitted as
-    `x\r\n` from stdin and as `x\n\n` from `-f FILE`. -/
+    `x\r\n` from stdin and as `x\n` from `-f FILE`. -/
 theorem cex_channel_cr : ¬ ChannelIndependenceFull := by
   intro h
   have h2 := h Text identityLib .set (.ok ['x', '\r']) [] []
@@ -393,10 +422,10 @@ example : libAnswers normalisingLib ['a', '\r', '\n'] = true ∧ hasCR ['a', '\r
 example : cli identityLib .test { chan := .file, raw := .ok ['{', '}', '\n'] } = okRes := by decide
 example : cli raisingLib .test { chan := .stdin, raw := .ok ['x'] } = tracebackRes .value := by decide
 example : cli identityLib .set { chan := .stdin, raw := .ok ['x'] } = ⟨['x', '\n'], 0, none, false⟩ := by decide
+example : cli identityLib .set { chan := .stdin, raw := .ok ['x', '\n'] } = ⟨['x', '\n'], 0, none, false⟩ := by decide
+example : oldCli identityLib .set { chan := .stdin, raw := .ok ['x', '\n'] } = ⟨['x', '\n', '\n'], 0, none, false⟩ := by decide
 example : libEdit identityLib .set [] [] ['x'] = .ok ['x'] ∧ (['x'] : Text).getLast? ≠ some '\n' := by decide
 example : endsInOneNewline ['x', '\n'] = true ∧ endsInOneNewline ['x', '\n', '\n'] = false := by decide
-example : runProg identityLib repairedSetProg { chan := .stdin, raw := .ok ['x', '\n'] } =
-    ⟨['x', '\n'], 0, none, false⟩ := by decide
 example : translateNewlines ['a', '\r', '\n', 'b', '\r', 'c', '\n'] = ['a', '\n', 'b', '\n', 'c', '\n'] := by decide
 
 end Nima.C16
